@@ -24,6 +24,8 @@ CLAIMED = {
             'README_extensions predicate override for all sample values (and all instants in dense time)'),
     'C07': ('6.C07', 'z3 shows (rho>0 => sat) and (rho<0 => not sat) for all sample values, on whole formulas over predicate atoms and as an inductive step per '
             'operator with arbitrary operand values/truths; and verdict invariance for every second trace within |rho|; discrete offline/online and dense at symbolic tau'),
+    'C08': ('6.C08', 'every spelling of each duration (unit on both/one end, mixed, default unit, constants, period in another unit) is enumerated; z3 shows each '
+            'equals the README semantics of the sample-level bound for all values (offline, online, pastified); non-multiples raise RTAMTException; dense time at symbolic tau'),
 }
 NA = {
     'C14': 'the quantifier ranges over strings and every string is consumed by the ANTLR4 ATN interpreter, which cannot be encoded or '
